@@ -44,7 +44,7 @@ def atom_specs(tier):
             ("python_version", ">", "3.8", True), ("python_version", "<=", "3.7", True),
             ("python_version", ">", "3", False), ("python_version", ">=", "3", False), ("python_version", "<", "3.10", False),
             ("python_version", "<", "4.0", False), ("python_version", "!=", "3.7.0", False),
-            ("python_version", ">=", "3.8.0", False)]
+            ("python_version", ">=", "3.8.0", False), ("python_version", "~=", "3.7.0", False)]
     for op in ("<", "<=", "==", "!=", ">=", ">"):
         for v in ("3.7.2", "3.8.0"):
             out.append(("python_full_version", op, v, False))
